@@ -5,7 +5,7 @@ use itertools::Itertools;
 
 use crate as pdf;
 use crate::error::*;
-use crate::object::{Object, Resolve, Stream};
+use crate::object::{Object, RcRef, Resolve, Stream};
 use crate::primitive::{Primitive, Dictionary};
 use std::convert::{TryFrom, TryInto};
 use std::io::{Read, Write};
@@ -79,7 +79,7 @@ pub struct CCITTFaxDecodeParams {
 #[derive(Object, ObjectWrite, Debug, Clone, DataSize, DeepClone)]
 pub struct JBIG2DecodeParams {
     #[pdf(key="JBIG2Globals")]
-    pub globals: Option<Stream<()>>
+    pub globals: Option<RcRef<Stream<()>>>
 }
 #[derive(Debug, Clone, DataSize, DeepClone)]
 pub enum StreamFilter {
